@@ -112,7 +112,8 @@ Inductive op :=
   | OSkip (i : nat) (c : count) | OLimit (i : nat) (c : count) | OCopy (i : nat)
   | OAppend (i : nat) (p : pool) | OMap (i : nat) (f : efun) | OFilter (i : nat) (p : epred)
   | OThub (i n : nat) | OUse (i : nat) | OTee (i n : nat)
-  | OThubVal (z : Z) (n : nat) | OTeeVal (z : Z) (n : nat).
+  | OThubVal (z : Z) (n : nat) | OTeeVal (z : Z) (n : nat)
+  | OAppendObj (i j : nat).         (* s_i.append(obj_j), obj_j an existing Stream or hub *)
 
 Fixpoint set_nth {A} (i : nat) (x : A) (l : list A) : list A :=
   match l, i with
@@ -232,6 +233,20 @@ Definition step (st : state) (o : op) : state * obs :=
       end
   | OThubVal z _ => (st, OItem z)
   | OTeeVal z n => (st, OItems (repeat z n))
+  | OAppendObj i j =>
+      (* chain(self._data, Stream(obj)._data): Stream(obj) calls iter(obj) NOW: a hub is
+         charged one use at append time (IndexError if none is left, nothing changed); a
+         plain Stream hands over its own iterator (shared: it must not be touched again) *)
+      if Nat.eqb i j then (st, OBad) else
+      match nth_error st i with
+      | Some (EStream _) =>
+          match give st j with
+          | inl (Some (st', s)) => apply_t st' i (fun si => TOk (lappend si s))
+          | inl None => (st, OBad)
+          | inr e => (st, ORaise e)
+          end
+      | _ => (st, OBad)
+      end
   end.
 
 Fixpoint run (st : state) (ops : list op) : list obs :=
@@ -247,7 +262,11 @@ Definition target (o : op) : option nat :=
   | ONext i | OTake i _ | OPeek i _ | OSkip i _ | OLimit i _ | OCopy i | OAppend i _
   | OMap i _ | OFilter i _ | OThub i _ | OUse i | OTee i _ => Some i
   | OThubVal _ _ | OTeeVal _ _ => None
+  | OAppendObj i _ => Some i
   end.
+(* a second object the operation reads / uses up *)
+Definition arg (o : op) : option nat :=
+  match o with OAppendObj _ j => Some j | _ => None end.
 
 (* the state after a history *)
 Fixpoint final (st : state) (ops : list op) : state :=
